@@ -24,7 +24,8 @@ REQUIRED = ["Sqfs.C10.coherent_init", "Sqfs.C10.coherent_seek", "Sqfs.C10.cohere
             "Sqfs.C10.prog_history_independent", "Sqfs.C10.session_history_independent",
             "Sqfs.C10.inode_by_ref_history_independent", "Sqfs.C10.readdir_call_history_independent",
             "Sqfs.C10.dir_listing_history_independent", "Sqfs.C10.dir_list_history_independent",
-            "Sqfs.C10.path_resolution_history_independent", "Sqfs.C10.xattr_desc_history_independent",
+            "Sqfs.C10.path_resolution_history_independent", "Sqfs.C10.listing_fuel_suffices",
+            "Sqfs.C10.path_fuel_suffices", "Sqfs.C10.xattr_desc_history_independent",
             "Sqfs.C10.xattr_set_history_independent", "Sqfs.C10.xattr_walk_history_independent",
             "Sqfs.C10.ool_position_restored", "Sqfs.C10.toyUnc_ok"]
 
@@ -408,8 +409,13 @@ def classify(lines, impl, rc, fixm, oldm, curm=None):
 
 def shrink(ctx, harness, lines, verdict, index=None):
     """greedy line removal keeping the verdict (setup lines are kept)"""
+    import time
+    deadline = time.time() + 60                     # shrinking is a convenience: never let it dominate the run
+
     def verdict_of(ls):
-        impl, rc, _ = run_harness(ctx, harness, ls, 120)
+        if time.time() > deadline:
+            return None
+        impl, rc, _ = run_harness(ctx, harness, ls, 30)
         text = "\n".join(ls) + "\n"
         with concurrent.futures.ThreadPoolExecutor(max_workers=3) as ex:
             fm = [ex.submit(ctx.driver, ["c10"] + a, text) for a in ([], ["old"], ["cur"])]
@@ -421,10 +427,10 @@ def shrink(ctx, harness, lines, verdict, index=None):
         cur = list(lines[:index + 1])
     changed = True
     budget = 100
-    while changed and budget > 0:
+    while changed and budget > 0 and time.time() < deadline:
         changed = False
         i = len(cur) - 1
-        while i >= 0 and budget > 0:
+        while i >= 0 and budget > 0 and time.time() < deadline:
             if cur[i].startswith("file") or re.match(r"(mr|dr|dd|xr|idt) \d+ new", cur[i]):
                 i -= 1
                 continue
